@@ -385,6 +385,13 @@ class NumpyTheory:
             return self.mat_empty(args[0].items, st, node)
         return None
 
+    def np_np_swapaxes(self, args, kw, st, node):
+        # an opaque array with two axes exchanged: an uninterpreted function of the array and the axes
+        if isinstance(args[0], VElem) and len(args) == 3:
+            f_ = z3.Function('swapaxes', Elem, z3.IntSort(), z3.IntSort(), Elem)
+            return VElem(f_(args[0].t, as_int(args[1]), as_int(args[2])))
+        return None
+
     def np_np_abs(self, args, kw, st, node):
         if type(args[0]).__name__ == 'VMat':
             return self.mat_abs(args[0], st, node)
